@@ -182,6 +182,70 @@ def first_diff(a, b, path=""):
     return path
 
 
+def _gc_child():
+    """(child process) 40 loads of one MetaModule file kept alive, a garbage collection, many new projects built at once and
+    kept alive, every knob of an Amplifier in each of them turned: prints the `mutate` event about the loaded synths."""
+    import gc
+    import sys
+    from ..common import setup_repo_path
+    setup_repo_path()
+    import rv.api as api
+    arg = json.load(sys.stdin)
+    spec = arg["spec"]
+    mm = api.m.MetaModule()
+    amp = mm.project.new_module(api.m.Amplifier)
+    for j, c_ in enumerate((0, 1, 3, 4, 7, 2, 5, 6)):
+        mm.mappings.values[j].module, mm.mappings.values[j].controller = amp.index, c_
+    mm.user_defined_controllers = 8
+    mm.update_user_defined_controllers()
+    data = api.Synth(mm).read()
+    loaded = [api.read_sunvox_file(io.BytesIO(data)) for _ in range(40)]
+    gc.collect()
+    fresh = [api.Project() for _ in range(arg["n"])]          # all built at once and kept alive
+    before = [digest(x, spec) for x in loaded]
+    raisedn, first = 0, ""
+    for k, pj in enumerate(fresh):
+        try:
+            a = pj.new_module(api.m.Amplifier)
+            a.volume, a.balance, a.dc_offset, a.inverse, a.stereo_width, a.absolute, a.fine_volume, a.gain = 1000 + k % 20, -7, 5, True, 77, True, 1234, 4321
+        except Exception as e:       # (each of these works on a project of its own)
+            raisedn += 1
+            first = first or repr(e)[:160]
+    after = [digest(x, spec) for x in loaded]
+    bad = [i for i in range(len(loaded)) if before[i][:2] != after[i][:2]]
+    i0 = bad[0] if bad else 0
+    ev = {"op": "mutate", "kind": "fresh-projects-built-and-edited-after-gc",
+          "provenance": "40 loads of one MetaModule file, %d changed, %d edits of fresh projects raised %s" % (len(bad), raisedn, first),
+          "state_before": before[i0][0], "state_after": after[i0][0] if not raisedn else "raised", "bytes_before": before[i0][1],
+          "bytes_after": after[i0][1] if not raisedn else "raised", "diff": first_diff(before[i0][2], after[i0][2])}
+    json.dump(ev, sys.stdout)
+
+
+def late_traces(ctx, api, spec, recipes, recipes_before, digest, first_diff):
+    """(run at the very end) the recipes again; loaded MetaModules kept alive while garbage is collected and many new projects
+    are built and edited (an object's identity may be RE-USED by a later object: nothing may be keyed by it)."""
+    import gc
+    out = []
+    # loaded MetaModules, a collection, fresh projects with every Amplifier knob turned: in a NEW interpreter (what memory a new
+    # object gets depends on everything the process did before; a small process re-uses the places given up during the loads)
+    import subprocess
+    import sys
+    r = subprocess.run([sys.executable, "-c", "from rvverif.drivers.c17 import _gc_child; _gc_child()"],
+                       input=json.dumps({"spec": spec, "n": 1000 if ctx.quick else 5000}), capture_output=True, text=True, timeout=900)
+    if r.returncode != 0:
+        raise MachineryError("gc child failed: " + r.stderr[-800:])
+    out.append({"id": "late/loaded-metamodules-vs-fresh-projects", "events": [json.loads(r.stdout)]})
+    ctx.count_case(("late", "gc"), nontrivial=True)
+    again = recipes()
+    for name in sorted(recipes_before):
+        b, a = recipes_before[name], again[name]
+        out.append({"id": "late/recipe/" + name, "events": [
+            {"op": "mutate", "kind": "same-construction-at-start-and-end-of-run", "provenance": "recipe " + name,
+             "state_before": b[0], "state_after": a[0], "bytes_before": b[1], "bytes_after": a[1], "diff": first_diff(b[2], a[2])}]})
+        ctx.count_case(("late", "recipe", name), nontrivial=True)
+    return out
+
+
 def run(ctx):
     import rv.api as api
     rnd = ctx.rnd
@@ -229,6 +293,63 @@ def run(ctx):
                        "state_before": "ok", "state_after": "raised", "bytes_before": "ok", "bytes_after": "raised", "diff": repr(e)[:200]})
         traces.append({"id": tid, "events": events})
 
+    # RECIPES: fixed constructions whose observable result (state, bytes, values delivered) is taken now and again at the very end,
+    # after everything else in this run (loads of every fixture, clones, failing loads, edits): an independently constructed
+    # object is what its construction makes it, whatever other objects went through before
+    def recipes():
+        out = {}
+        def rec(name, fn):
+            try:
+                out[name] = fn()
+            except Exception as e:
+                out[name] = ("raised:" + type(e).__name__, "raised", {"raised": repr(e)[:120]})
+        def r_multictl_meta():
+            pj = api.Project()
+            mm = pj.new_module(api.m.MetaModule)
+            amp = mm.project.new_module(api.m.Amplifier)
+            from rv.errors import override_raise_controller_value_errors
+            for j, c_ in enumerate((6, 6, 6, 6)):       # (fine_volume: 0..32768, the range a user-defined controller starts with)
+                mm.mappings.values[j].module, mm.mappings.values[j].controller = amp.index, c_
+            mm.user_defined_controllers = 4             # (exposed, ranges not re-derived: the controllers are as constructed)
+            got = []
+            with override_raise_controller_value_errors(False):
+                for j in range(4):
+                    mc = pj.new_module(api.m.MultiCtl)
+                    pj.connect(mc, mm)
+                    mc.mappings.values[0].controller = 6 + j       # user_defined_<j+1>
+                    mc.value = 16384 + 1000 * j
+                    got += [int(getattr(mm, "user_defined_%d" % (j + 1))), int(amp.fine_volume)]
+                    try:
+                        mc.reflect(0)
+                        got.append(int(mc.value))
+                    except Exception as e:
+                        got.append(type(e).__name__)
+            d = digest(pj, spec)
+            return d[0] + repr(got), d[1], {"delivered": got, "proj": d[2]}
+        def r_lfo_macro():
+            pj = api.Project()
+            lfo = pj.new_module(api.m.Lfo)
+            gn = pj.new_module(api.m.Generator)
+            mc = api.m.MultiCtl.macro(pj, (lfo, "waveform"), (gn, "waveform"))
+            mc.value = 30000
+            d = digest(pj, spec)
+            return d[0] + repr([int(mc.gain), int(lfo.waveform), int(gn.waveform)]), d[1], {"gain": int(mc.gain), "proj": d[2]}
+        def r_sampler():
+            sm = api.m.Sampler()
+            for e_ in [sm.volume_envelope, sm.panning_envelope, sm.pitch_envelope] + list(sm.effect_control_envelopes):
+                e_.points.append((999, e_.range[0]))
+            return digest(sm, spec)
+        def r_plain(t):
+            return lambda: digest(cl[t](), spec)
+        rec("multictl->metamodule", r_multictl_meta)
+        rec("macro-over-enums", r_lfo_macro)
+        rec("sampler-envelopes-extended", r_sampler)
+        for t in ("MetaModule", "MultiCtl", "Amplifier", "Lfo" if "Lfo" in cl else "LFO", "SpectraVoice", "Generator"):
+            if t in cl:
+                rec("fresh-" + t, r_plain(t))
+        rec("fresh-project", lambda: digest(api.Project(), spec))
+        return out
+    recipes_before = recipes()
     types_ = sorted(cl)
     for t in types_:
         for how in ("construct", "clone", "load"):
@@ -563,6 +684,7 @@ def run(ctx):
     traces.append(c)
     cans.append(c["id"])
     inv = {v: k for k, v in rn.m.items()}
+    traces[-2:-2] = late_traces(ctx, api, spec, recipes, recipes_before, digest, first_diff)
 
     def where(tr, m):
         if m.get("op") == "heap":
